@@ -553,3 +553,49 @@ func H_C16_EntValidate() {
 		rt.Assert("C16.ent-usable-signers>=min-accepts", rt.IntLe(rt.IntOfU64(p.MinAccepts), sdk.NewInt(int64(usable))))
 	}
 }
+
+// H_C05_MintSpendable: completing a purchase order never increases the purchaser's spendable
+// balance — for a base account and for a vesting account (symbolic still-vesting amount and
+// delegation bookkeeping).
+func H_C05_MintSpendable() {
+	now := AnyBlockTime("now")
+	ee := NewEntEnvOn(NewEnv(now, false), 1)
+	k, ctx := ee.K, ee.Ctx
+	nowSec := uint64(now.Unix())
+	k.SetHighestPurchaseOrderID(ctx, 10)
+	books := setupBooksOpt(ee, true)
+	liquid := rt.BigInt("purchaser.liquid", 0, 128)
+	ee.Bank.Fund(Addr(0), "nund", liquid)
+	vesting := rt.Choose(2) == 1
+	if vesting {
+		v := rt.BigInt("purchaser.vesting", 1, 128)
+		dv := rt.BigInt("purchaser.delegatedVesting", 0, 128)
+		df := rt.BigInt("purchaser.delegatedFree", 0, 128)
+		rt.Assume(rt.IntLe(dv, v)) // BaseVestingAccount: delegated vesting never exceeds original vesting
+		ee.Bank.AddVesting(Addr(0), sdk.Coins{sdk.NewCoin("nund", v)}, coinsOf("nund", dv), coinsOf("nund", df))
+	} else {
+		ee.Bank.AddBase(Addr(0))
+	}
+	ee.Bank.AddBase(Addr(1))
+	acc := anyOrder("a0", 3, Addr(0), enttypes.StatusAccepted, 0, nowSec)
+	_ = k.SetPurchaseOrder(ctx, acc)
+	k.AddPoToAcceptedQueue(ctx, 3)
+	before := ee.Bank.SpendableCoins(ctx, Addr(0)).AmountOf("nund")
+	panicked := rt.Catch(func() { enterprise.BeginBlocker(ctx, k) })
+	rt.Assert("C14.beginblock-no-panic", !panicked)
+	if panicked {
+		return
+	}
+	rt.Reach("minted")
+	after := ee.Bank.SpendableCoins(ctx, Addr(0)).AmountOf("nund")
+	rt.Known("C05-vesting-purchaser-spendable-grows", vesting)
+	rt.Assert("C05.mint-never-increases-spendable", rt.IntLe(after, before))
+	rt.Assert("C03+C04.locked-credited-exactly", rt.IntEq(k.GetLockedUndAmountForAccount(ctx, Addr(0)).Amount, books.Locked[0].Add(acc.Amount.Amount)))
+}
+
+func coinsOf(denom string, amt sdk.Int) sdk.Coins {
+	if rt.IntEq(amt, sdk.ZeroInt()) {
+		return sdk.Coins{}
+	}
+	return sdk.Coins{sdk.NewCoin(denom, amt)}
+}
